@@ -216,6 +216,19 @@ def run(ctx):
                     names = ["is_beat_grid_locked"] + [x for x in names if x != "is_beat_grid_locked"]
                 between = [{"op": "trk_set_col", "id": "$tid", "col": c, "value": flags[c]} for c in names]
             c = build_case("c%d" % n, schema, sA, sB, simple_first=(k % 4 == 3), bystander=by, prelude=prelude, between=between)
+            if k % 8 == 7 or k in (1, 9):
+                # the library opened by a relative directory name, and track files whose path begins with that very name
+                # (an exporter handing over "<library folder>/Music/x.mp3", or a music folder that happens to be called
+                # like the library folder): the path is a value like any other and must read back as written
+                dname = "c%d" % n
+                c["ops"][0] = {"op": "create", "schema": schema, "dir": "@R/" + dname}
+                c["no_disk"] = True
+                shapes = [dname + "/", dname + "/" + dname + "/", "./" + dname + "/", dname, "/" + dname + "/", "../" + dname + "/"]
+                for j, sn in enumerate((sA, sB)):
+                    if sn.get("relative_path") is not None:
+                        tail = bytes.fromhex(sn["relative_path"]).lstrip(b"/") or b"x.mp3"
+                        sn["relative_path"] = (shapes[(k // 8 + j) % len(shapes)].encode() + tail).hex()
+                ctx.bump("cases_whose_track_path_begins_with_the_library_directory")
             if between:
                 c["ops"][0]["op"] = "lib_create_temporary"
                 for o in c["ops"]:
